@@ -1,5 +1,6 @@
 from reamber.algorithms.convert.ConvertBase import ConvertBase
 from reamber.quaver.QuaMap import QuaMap
+from reamber.quaver.QuaMapMeta import QuaMapMode
 from reamber.sm.SMMap import SMMap
 from reamber.sm.SMMapMeta import SMMapChartTypes
 from reamber.sm.SMMapSet import SMMapSet
@@ -26,7 +27,8 @@ class QuaToSM(ConvertBase):
         )
         sm.bpms = cls.cast(qua.bpms, SMBpmList, dict(offset="offset", bpm="bpm"))
         sm.description = qua.difficulty_name
-        sm.chart_type = SMMapChartTypes.get_type(qua.stack().column.max() + 1)
+        # The key count is the chart's own: a chart need not use its top columns
+        sm.chart_type = SMMapChartTypes.get_type(QuaMapMode.get_keys(qua.mode))
 
         sms = SMMapSet()
 
